@@ -330,6 +330,9 @@ type State struct {
 	epoch  int
 	defers []deferred
 	writes map[string][]string // heap component -> outer indices written ("*" = unknown)
+	// approx: the state went through an abstraction of this module's own code (a loop summarised by its invariants,
+	// a callee summarised by its contract, a heap havoc): a model of it need not be an execution of the function
+	approx bool
 }
 
 func (s *State) logWrite(comp, outer string) {
@@ -345,7 +348,7 @@ func (s *State) logWrite(comp, outer string) {
 }
 
 func (s *State) clone() *State {
-	n := &State{env: make(map[types.Object]*Value, len(s.env)), heap: make(map[string]string, len(s.heap)), alloc: s.alloc, ghost: map[string]string{}, epoch: s.epoch, defers: s.defers}
+	n := &State{env: make(map[types.Object]*Value, len(s.env)), heap: make(map[string]string, len(s.heap)), alloc: s.alloc, ghost: map[string]string{}, epoch: s.epoch, defers: s.defers, approx: s.approx}
 	for k, v := range s.env {
 		n.env[k] = v
 	}
